@@ -4,7 +4,7 @@ SPEC = {
     "lean_modules": ["SemaModel.C10.Props"],
     "lean_dirs": ["SemaModel/C10", "SemaModel/C03"],
     "harness": "c10",
-    "harness_args": {"quick": ["-n", 300, "-len", 14], "thorough": ["-n", 3000, "-len", 18]},
+    "harness_args": {"quick": ["-n", 1200, "-len", 14], "thorough": ["-n", 9000, "-len", 18]},
     "timeout": {"quick": 600, "thorough": 2400},
     "level": "proof",
     "tie": "T3: after every batch of random histories on a real file-backed shard the index/points/internal buckets are dumped through (*Shard).VerifDB() and the Lean executable predicate wfB (the very definition WF of C10_step / C10_history) is evaluated on the dump by the driver; batches that reach the index as one change (single insert worker, deterministic) are replayed by the Lean model `apply` of insertUpdateDelete on the previous dump with the real distance tables (DistanceFromFloat / DistanceFromPoint of a vector store opened on the persisted bucket, Alpha*d as float32) and must reproduce the new dump's edge lists, vectors and maxNodeId exactly (the Go-map order of the rescue step is an oracle: the driver accepts any order of the rescued nodes that reproduces the dump)",
